@@ -23,5 +23,5 @@ META = dict(
     ],
     BUDGET={"quick": 50.0, "thorough": 840.0},
     CASE_TIMEOUT={"quick": 60, "thorough": 240},
-    MIN_CASES={"quick": 200, "thorough": 5000},
+    MIN_CASES={"quick": 50, "thorough": 2000},
 )
